@@ -51,13 +51,34 @@ FIXED_SETS = [{"vr": 2, "th": 2, "minw": 1, "maxw": 2}, {"vr": 2, "th": 2, "minw
               {"vr": 2, "th": 1, "minw": 0, "maxw": 0}, {"vr": 3, "th": 3, "minw": 2, "maxw": 3}]
 
 
+def p4(vr, th, minw, maxw):
+    return {"vr": vr, "th": th, "minw": minw, "maxw": maxw}
+
+
+# parameter sets in which the versions differ (vote rounds, threshold, min/max wait): builder and verifier must both judge by
+# the ACTIVE version; the next version lowers / raises the minimum wait, shortens / lengthens the window, ...
+MIXED_FIXED = [{"p1": p4(2, 2, 2, 2), "p2": p4(2, 1, 0, 1), "p9": p4(2, 2, 1, 1)},
+               {"p1": p4(2, 1, 1, 1), "p2": p4(2, 2, 0, 2), "p9": p4(2, 1, 0, 0)}]
+
+
+def mixed_param_sets(n, seed):
+    rnd = random.Random(1000 + seed)
+    allp = all_param_sets()
+    out = []
+    while len(out) < n:
+        a, b, c = rnd.choice(allp), rnd.choice(allp), rnd.choice(allp)
+        if a != b:
+            out.append({"p1": a, "p2": b, "p9": c})
+    return out
+
+
 def choose_param_sets(ctx):
     allp = all_param_sets()
     if not ctx.quick:
-        return allp
+        return allp + MIXED_FIXED + mixed_param_sets(8, 0)
     rest = [p for p in allp if p not in FIXED_SETS]
     random.Random(ctx.seed).shuffle(rest)
-    return FIXED_SETS + rest[:2]
+    return FIXED_SETS[:3] + MIXED_FIXED + rest[:1]
 
 
 def known_for_model(ctx):
@@ -73,7 +94,8 @@ def known_for_model(ctx):
 
 
 def tuple_bound(p, quick):
-    return min(8, p["vr"] + p["maxw"] + 3)
+    vs = [p[k] for k in ("p1", "p2", "p9")] if "p1" in p else [p]
+    return min(8, max(v["vr"] + v["maxw"] for v in vs) + 3)
 
 
 def design(ctx, psets):
@@ -114,7 +136,7 @@ def design(ctx, psets):
     if a.violated:
         raise vlib.Undecided("the property layer is inconsistent: a SafeStep chain violates the chain-level statement (%s)" % a.dir)
     # (d) the proposed repair removes every deviation (no known list)
-    fsets = psets if not quick else FIXED_SETS
+    fsets = psets if not quick else FIXED_SETS + MIXED_FIXED[:1]
     ffiles = {"params.json": json.dumps(fsets), "known_c12.json": json.dumps([{"clause": "-none-", "disc": ["-"]}])}
     cfg = CFG % dict(base, mode="verifier", fixed="TRUE", invs="INVARIANT VerifierSafe BuilderOk", view="ViewV")
     f = ctx.tlc_must("VersionUpgrade", cfg, name="M_repaired", files=ffiles, timeout=3000, coverage=not quick)
@@ -367,8 +389,8 @@ def run(ctx):
                        "state of the design model (every parameter set of the tier) + one random walk per parameter set; for each "
                        "chain the whole candidate domain (3 versions x 4 next versions x (F+1)^3) goes through the real verifier; "
                        "non-trivial = the explored header carries a live proposal, or a walk; distinct by JSON")
-    ctx.assumptions += ["every version of the scaled table carries the same four upgrade parameters; versions {1,2,9}, "
-                        "ApprovedUpgradeVersion 1->2->9",
+    ctx.assumptions += ["versions {1,2,9}, ApprovedUpgradeVersion 1->2->9; parameter sets either give every version the same four "
+                        "upgrade parameters or one quadruple per version (mixed sets); the clauses use the ACTIVE version's",
                         "curr.Number = prev.Number + 1 (checked elsewhere by header verification)",
                         "a node whose table lacks the version being switched to halts (logging.Crit); that is neither acceptance "
                         "nor rejection of a builder's header",
